@@ -32,6 +32,22 @@ PROPS = {
                      "node identity is kept in the model (a clone carries the id of the node it was cloned from); that clone nodes are new allocations is read off the table shape (out := &K{}) and checked on the implementation by pointer-identity comparison",
                      "'prints identically' composes C06_clone_is_complete_copy with the table obligations C06_clone_covers_what_printing_consults / C06_init_spacing_never_rendered; the composition (flatten depends on the tree only through the copied fields) is exercised by C06_nonvacuous and the implementation oracle, not stated as one theorem"],
     ),
+    "C07": dict(
+        unknown_keys=["restorer.go"],
+        trusted_base=[KERNEL, TRANSLATOR + " (decorator/restorer.go -> Gen/ImportsSrc.v: statements of updateImports before the last ResolvePackage call write only local maps, %w wrapping, sort before naming, RestoreFile order; decorator.go/restorer.go/load.go -> Gen/ErrProp.v error propagation lint; decorator-node-generated.go -> Gen/DecTbl.v)",
+                      HARNESS + "; hand model Model/Imports.v of FileRestorer.updateImports, tied by correspondence on generated import configurations (final blocks with aliases, spacing and parentheses, the qualifier of every referenced path, or the unresolvable path)",
+                      "Go maps modelled as association lists; map iteration order is not modelled (determinism is checked on the implementation, C16)"],
+        assumptions=["the source imports no path twice (recorded finding duplicate-path-import otherwise)",
+                     "'each identifier is a selector on an import of exactly its path' and alias precedence are established on the implementation by the oracle (re-parsing the output, binding names to paths) and on the model by correspondence + examples; the general theorems proved are: free-name loop, pairwise distinct names, only required imports remain, blocks without additions untouched"],
+    ),
+    "C17": dict(
+        unknown_keys=["restorer.go", "decorator.go", "load.go", "decorator-node-generated.go"],
+        trusted_base=[KERNEL, TRANSLATOR + " (decorator/restorer.go -> Gen/ImportsSrc.v: statements of updateImports before the last ResolvePackage call write only local maps, %w wrapping, sort before naming, RestoreFile order; decorator.go/restorer.go/load.go -> Gen/ErrProp.v error propagation lint; decorator-node-generated.go -> Gen/DecTbl.v)",
+                      HARNESS + "; hand model Model/Imports.v of FileRestorer.updateImports, tied by correspondence on generated import configurations (final blocks with aliases, spacing and parentheses, the qualifier of every referenced path, or the unresolvable path)",
+                      "Go maps modelled as association lists; map iteration order is not modelled (determinism is checked on the implementation, C16)"],
+        assumptions=["'input tree left unmodified' on the restore side is the static fact C17_restore_resolves_before_it_mutates plus the oracle's deep comparison; on the decorate side the static fact that no decorateNode statement assigns through n plus the oracle's ast dump comparison",
+                     "the error lint covers the listed hand-written functions; generated decorateNode cases are covered by the translator's statement shapes"],
+    ),
     "C11": dict(
         unknown_keys=["decorator-node-generated.go", "restorer-generated.go", "dst.go"],
         trusted_base=[KERNEL, TRANSLATOR + " (decorator-node-generated.go -> Gen/DecTbl.v statement by statement: statements touching the node maps, calling decorateNode or assigning through the input ast must be recognised exactly; restorer-generated.go -> Gen/RestTbl.v; dst.go -> Gen/Universe.v)",
